@@ -5,7 +5,7 @@
     ([Unique] sound and complete, [NoSolution] only without solutions, [Definite] guidance never
     excluding a solution) is really violated.  [f14_refuted]: on the unchanged tree the
     contract IS violated inside the known class [f14_class] (DESIGN §5 F14). *)
-From Chalk Require Import Logic.Contract Logic.Meta Logic.Fuel Logic.Decide Logic.Classes.
+From Chalk Require Import Logic.Contract Logic.Meta Logic.Fuel Logic.Decide Logic.Classes Logic.Inv.
 
 Theorem eval_correct : forall (fuel : nat) (P : program) (env : list clause) (rho : list ty) (g : goal) (b : bool),
   rr (allc P env) -> eval_goal fuel P env rho g = Some b -> (b = true <-> sat P env rho g).
@@ -126,3 +126,29 @@ Check known_classes_narrow :
   (forall fuel P g, pcoind P = [] -> f7q_class fuel P g = false /\ f7n_class fuel P g = false) /\
   (forall fuel P q cands, pcoind P = [] -> f7q_query fuel P q cands = false) /\
   (forall fuel P g, has_not g = false -> f7n_class fuel P g = false).
+
+Theorem eval_inv_false_sound : forall (g : goal) (fuel : nat) (univ : list ty) (P : program) (env : list clause) (rho : list ty),
+  rr (allc P env) -> eval_inv fuel univ P env rho g = Some false -> ~ sat_inv P env rho g.
+Proof. exact Inv.eval_inv_false_sound. Qed.
+Check eval_inv_false_sound : forall (g : goal) (fuel : nat) (univ : list ty) (P : program) (env : list clause) (rho : list ty),
+  rr (allc P env) -> eval_inv fuel univ P env rho g = Some false -> ~ sat_inv P env rho g.
+
+Theorem sat_inv_clean : forall (g : goal) (P : program) (env : list clause) (rho : list ty),
+  naf g = true -> phb_clauses env = 0%N -> phb_list rho = 0%N -> phb_goal g = 0%N ->
+  (sat_inv P env rho g <-> sat P env rho g).
+Proof. exact Inv.sat_inv_clean. Qed.
+Check sat_inv_clean : forall (g : goal) (P : program) (env : list clause) (rho : list ty),
+  naf g = true -> phb_clauses env = 0%N -> phb_list rho = 0%N -> phb_goal g = 0%N ->
+  (sat_inv P env rho g <-> sat P env rho g).
+
+Theorem sat_inv_le : forall (g : goal) (P : program) (env : list clause) (rho : list ty),
+  nn1 g = true -> sat_inv P env rho g -> sat P env rho g.
+Proof. exact Inv.sat_inv_le. Qed.
+Check sat_inv_le : forall (g : goal) (P : program) (env : list clause) (rho : list ty),
+  nn1 g = true -> sat_inv P env rho g -> sat P env rho g.
+
+Theorem neg_inv_differ :
+  neg_inv_shape false InvExamples.gn = true /\ sat InvExamples.Pn [] [] InvExamples.gn /\ ~ sat_inv InvExamples.Pn [] [] InvExamples.gn.
+Proof. exact InvExamples.neg_inv_differ. Qed.
+Check neg_inv_differ :
+  neg_inv_shape false InvExamples.gn = true /\ sat InvExamples.Pn [] [] InvExamples.gn /\ ~ sat_inv InvExamples.Pn [] [] InvExamples.gn.
